@@ -626,6 +626,13 @@ func (tr *fnTrans) specCall(x ECall, env *specEnv) (Term, error) {
 		return T(tr.wf(args[0], al), SBool), nil
 	case "arr":
 		return T(slArr(args[0].S), SInt), nil
+	case "isa": // ghost: the pointer refers to an object allocated with its static struct type
+		if args[0].T == nil || args[0].T.Name != "Int" || args[0].T.Elem == nil {
+			return Term{}, fmt.Errorf("isa of non-pointer")
+		}
+		tn := "T_" + args[0].T.Elem.Tag()
+		tr.touchHeap(tn, SBool, false)
+		return T(sel(env.heapTerm(tn), args[0].S), SBool), nil
 	case "deref": // contents of the cell a pointer refers to
 		if args[0].T == nil || args[0].T.Name != "Int" || args[0].T.Elem == nil {
 			return Term{}, fmt.Errorf("deref of non-pointer")
